@@ -40,4 +40,5 @@ def generate(d):
     out += 'Definition skew_set : list N := [%s].\n' % '; '.join('%d%%N' % c for c in skew_set(d))
     changed = write_if_changed(os.path.join(COQ, 'gen', 'OracleTables.v'), out)
     write_if_changed(os.path.join(BUILD, 'engine_d.txt'), "".join("%d %d\n" % (a, b) for a, b in d['engine_d']))
+    write_if_changed(os.path.join(BUILD, 'std_ws.txt'), "".join("%d %d\n" % (a, b) for a, b in d['is_whitespace']))
     return changed
